@@ -96,17 +96,285 @@ def translate(repo=None):
     return True, " ".join(f"{t}:{v[0]}/{v[1]}" for t, v in k.items())
 
 
+# ---- translator: the hash functions of the current sources -> lean/Nstd/Generated/HashFn.lean ------------------
+GEN_FN = C.LEAN / "Nstd" / "Generated" / "HashFn.lean"
+
+
+class TErr(Exception):
+    pass
+
+
+def _tokens(src):
+    toks = re.findall(r"\s*(>>=|<<=|\*=|\^=|\+=|-=|\|=|&=|!=|==|>>|<<|[A-Za-z_]\w*|\d+[uUlL]*|[-+*/%^&|()\[\];=.,{}<>!~])", src)
+    if "".join(toks) != re.sub(r"\s+", "", src):
+        raise TErr("cannot tokenise: " + src.strip())
+    return toks
+
+
+class _Expr:
+    """C expression over usize -> Lean term.  Everything is unsigned arithmetic of the width of usize; `leaf` turns an
+    identifier / postfix form into a Lean term or refuses.  Precedence as in C (| ^ & == != << >> + - * / %)."""
+    LEVELS = [["|"], ["^"], ["&"], ["==", "!="], ["<<", ">>"], ["+", "-"], ["*", "/", "%"]]
+    FN = {"|": "uor", "^": "uxor", "&": "uand", "<<": "ushl", ">>": "ushr", "+": "uadd", "-": "usub", "*": "umul",
+          "/": "udiv", "%": "umod"}
+
+    def __init__(self, toks, leaf):
+        self.t, self.i, self.leaf = toks, 0, leaf
+
+    def peek(self):
+        return self.t[self.i] if self.i < len(self.t) else None
+
+    def take(self, x=None):
+        v = self.peek()
+        if v is None or (x is not None and v != x):
+            raise TErr(f"expected {x!r}, found {v!r} in {' '.join(self.t)}")
+        self.i += 1
+        return v
+
+    def parse(self, lvl=0):
+        if lvl == len(self.LEVELS):
+            return self.unary()
+        a = self.parse(lvl + 1)
+        while self.peek() in self.LEVELS[lvl]:
+            op = self.take()
+            b = self.parse(lvl + 1)
+            if op == "!=":
+                a = f"(if {a} ≠ {b} then 1 else 0)"
+            elif op == "==":
+                a = f"(if {a} = {b} then 1 else 0)"
+            else:
+                a = f"({self.FN[op]} {a} {b})"
+        return a
+
+    def unary(self):
+        v = self.peek()
+        if v == "(":
+            # a cast `(usize)x` or a parenthesised expression
+            if self.i + 2 < len(self.t) and self.t[self.i + 1] == "usize" and self.t[self.i + 2] == ")":
+                self.i += 3
+                return self.leaf(self, "cast")
+            self.take("(")
+            e = self.parse()
+            self.take(")")
+            return e
+        if v is not None and re.fullmatch(r"\d+[uUlL]*", v):
+            self.take()
+            return str(int(re.sub(r"[uUlL]+$", "", v)))
+        if v == "sizeof":
+            self.take()
+            self.take("(")
+            ty = []
+            while self.peek() != ")":
+                ty.append(self.take())
+            self.take(")")
+            return self.leaf(self, ("sizeof", " ".join(ty)))
+        return self.leaf(self, "ident")
+
+
+def _probe_types(repo, names):
+    """width in bits and signedness of the named types as the compiler sees them through Base.hpp"""
+    import subprocess
+    import tempfile
+    body = "".join(f'  p<{n}>("{n}");\n' for n in names)
+    prog = ('#include <stdio.h>\n#include <nstd/Base.hpp>\n'
+            'template<class T> static void p(const char* n) { printf("%s %d %d\\n", n, (int)sizeof(T) * 8, (int)(T(-1) < T(0))); }\n'
+            'int main() {\n' + body + '  printf("void* %d 0\\n", (int)sizeof(void*) * 8);\n  return 0;\n}\n')
+    with tempfile.TemporaryDirectory(prefix="hashfn-") as d:
+        src, exe = Path(d) / "p.cpp", Path(d) / "p"
+        src.write_text(prog)
+        r = subprocess.run([C.CXX, "-std=gnu++11", "-DNSTD_VERIF", f"-I{repo}/include", str(src), "-o", str(exe)],
+                           stdout=subprocess.PIPE, stderr=subprocess.STDOUT, text=True)
+        if r.returncode != 0:
+            raise TErr("type probe does not compile: " + r.stdout[-300:])
+        out = subprocess.run([str(exe)], stdout=subprocess.PIPE, text=True).stdout
+    res = {}
+    for line in out.splitlines():
+        n, w, sg = line.rsplit(" ", 2)
+        res[n] = (int(w), bool(int(sg)))
+    return res
+
+
+def read_hash_functions(repo=None):
+    """the `hash` overloads of Base.hpp (after the real preprocessor has resolved the conditionals) and
+    `hash(const String&)` of String.hpp, translated.  Returns a dict or raises TErr."""
+    import subprocess
+    repo = Path(repo or C.REPO)
+    r = subprocess.run([C.CXX, "-E", "-P", "-std=gnu++11", "-DNSTD_VERIF", f"-I{repo}/include", "-x", "c++",
+                        str(repo / "include/nstd/Base.hpp")], stdout=subprocess.PIPE, stderr=subprocess.DEVNULL, text=True)
+    if r.returncode != 0:
+        raise TErr("Base.hpp does not preprocess")
+    base = r.stdout
+    ovl = re.findall(r"inline\s+usize\s+hash\s*\(\s*([^()]*?)\s*(\w+)\s*\)\s*\{\s*return\s+([^;{}]*);\s*\}", base)
+    if len(re.findall(r"\busize\s+hash\s*\(", base)) != len(ovl) or not ovl:
+        raise TErr(f"Base.hpp: {len(ovl)} of the hash overloads have the form `inline usize hash(T v) {{return E;}}`")
+    types = [t.strip() for t, _, _ in ovl if "*" not in t]
+    info = _probe_types(repo, sorted(set(types + ["usize", "char"])))
+    ub = info["usize"][0]
+    if info["usize"][1] or ub not in (32, 64):
+        raise TErr(f"usize is {info['usize']}")
+    pb = info["void*"][0]
+    res = {"usize_bits": ub, "char_signed": info["char"][1], "ptr_bits": pb, "overloads": []}
+    seen = set()
+    for ty, par, body in ovl:
+        ty = ty.strip()
+        if "*" in ty:
+            name, w, sg = "ptr", pb, False
+            if not re.fullmatch(r"const\s+void\s*\*", ty):
+                raise TErr("pointer overload of hash with parameter type " + ty)
+        else:
+            if ty not in info:
+                raise TErr("parameter type " + ty)
+            name, (w, sg) = re.sub(r"\W+", "_", ty), info[ty]
+        if name in seen:
+            raise TErr("two overloads for " + ty)
+        seen.add(name)
+        used = []
+
+        def leaf(px, kind, par=par, w=w, sg=sg, used=used):
+            if kind == "cast":
+                # `(usize)v`: the parameter converted to usize (sign extension for signed types)
+                v = px.take()
+                if v != par:
+                    raise TErr(f"cast of {v!r} in hash({ty})")
+                used.append(v)
+                return f"(castUsize {w} {'true' if sg else 'false'} {par})"
+            if isinstance(kind, tuple):
+                t = kind[1].replace(" ", "")
+                if t == "void*":
+                    return str(pb // 8)
+                if kind[1] in info:
+                    return str(info[kind[1]][0] // 8)
+                raise TErr("sizeof(" + kind[1] + ")")
+            raise TErr(f"hash({ty}) uses {px.peek()!r} outside a (usize) cast")   # globals, calls, the raw parameter
+        px = _Expr(_tokens(body), leaf)
+        term = px.parse()
+        if px.peek() is not None or not used:
+            raise TErr(f"hash({ty}): cannot translate `{body.strip()}`")
+        res["overloads"].append({"name": name, "ctype": ty, "bits": w, "signed": sg, "src": f"inline usize hash({ty} {par}) {{return {body.strip()};}}",
+                                 "lean": term, "param": par})
+    # ---- hash(const String&)
+    ssrc = _strip((repo / "include/nstd/String.hpp").read_text())
+    m = re.search(r"inline\s+usize\s+hash\s*\(\s*const\s+String\s*&\s*(\w+)\s*\)\s*\{([^{}]*)\}", ssrc)
+    if not m:
+        raise TErr("String.hpp: hash(const String&) not found")
+    sp, body = m.group(1), m.group(2)
+    stmts = [x.strip() for x in body.split(";") if x.strip()]
+    lenv = accv = ptrv = None
+    reads, lines, ret = [], [], None
+    declared = set()
+
+    def sleaf(px, kind):
+        if kind == "cast":
+            raise TErr("cast in hash(const String&)")
+        if isinstance(kind, tuple):
+            raise TErr("sizeof in hash(const String&)")
+        v = px.take()
+        if v == lenv:
+            return "len"
+        if v == accv and px is not None and getattr(px, "allow_acc", False):
+            return accv
+        if v == ptrv:
+            # s[E]: E may depend on the length only
+            px.take("[")
+            sub = _Expr(px.t, sleaf)
+            sub.i = px.i
+            e = sub.parse()
+            px.i = sub.i
+            px.take("]")
+            reads.append(e)
+            return f"(charToUsize (cs.getD {len(reads) - 1} 0))"
+        raise TErr(f"hash(const String&) uses {v!r}")
+    for st in stmts:
+        if ret is not None:
+            raise TErr("statement after return in hash(const String&)")
+        m1 = re.fullmatch(r"usize\s+(\w+)", st)
+        if m1:
+            declared.add(m1.group(1))
+            continue
+        m1 = re.fullmatch(r"usize\s+(\w+)\s*=\s*\(\s*(\w+)\s*=\s*" + sp + r"\s*\.\s*length\s*\(\s*\)\s*\)", st)
+        if m1 and m1.group(2) in declared and accv is None:
+            accv, lenv = m1.group(1), m1.group(2)
+            lines.append(f"  let {accv} := len")
+            continue
+        m1 = re.fullmatch(r"const\s+char\s*\*\s*(\w+)\s*=\s*" + sp, st)
+        if m1 and ptrv is None:
+            ptrv = m1.group(1)       # `operator const char*() const`: the conversion modelled by StrView.conv
+            continue
+        m1 = re.fullmatch(r"(\w+)\s*(\*=|\^=|\+=|-=|\|=|&=|>>=|<<=)\s*(.+)", st)
+        if m1 and m1.group(1) == accv and accv is not None:
+            px = _Expr(_tokens(m1.group(3)), sleaf)
+            px.allow_acc = True
+            rhs = px.parse()
+            if px.peek() is not None:
+                raise TErr("cannot translate `" + st + "`")
+            lines.append(f"  let {accv} := {_Expr.FN[m1.group(2)[:-1]]} {accv} {rhs}")
+            continue
+        m1 = re.fullmatch(r"return\s+(\w+)", st)
+        if m1 and m1.group(1) == accv:
+            ret = accv
+            continue
+        raise TErr("hash(const String&): cannot translate `" + st + "`")
+    if ret is None or ptrv is None or not reads:
+        raise TErr("hash(const String&): no return / no conversion to const char* / no character read")
+    res["string"] = {"reads": reads, "lines": lines, "ret": ret, "src": " ".join(x + ";" for x in stmts)}
+    return res
+
+
+def translate_fn(repo=None):
+    try:
+        k = read_hash_functions(repo)
+    except (OSError, TErr) as e:
+        return False, "hash functions: " + str(e)
+    ub = k["usize_bits"]
+    M = 1 << ub
+    t = ("/- generated by tools/areas/hash.py (translate_fn) from include/nstd/Base.hpp (after `g++ -E`) and\n"
+         "   include/nstd/String.hpp - do not edit -/\nnamespace Nstd.Generated.HashFn\n\n"
+         f"/-- `usize` has {ub} bits (probed with the compiler through Base.hpp); `M = 2 ^ {ub}` -/\n"
+         f"def usizeBits : Nat := {ub}\ndef M : Nat := {M}\n\n"
+         "/-- `(usize)v` for an argument of a `w`-bit type given by its bit pattern `x`: sign extension for signed types -/\n"
+         f"def castUsize (w : Nat) (signed : Bool) (x : Nat) : Nat :=\n  (if signed = true ∧ 2 ^ (w - 1) ≤ x then {M} + x - 2 ^ w else x) % {M}\n"
+         f"def uadd (a b : Nat) : Nat := (a + b) % {M}\n"
+         f"def usub (a b : Nat) : Nat := (a % {M} + {M} - b % {M}) % {M}\n"
+         f"def umul (a b : Nat) : Nat := (a * b) % {M}\n"
+         f"def udiv (a b : Nat) : Nat := (a % {M}) / (b % {M})\n"
+         f"def umod (a b : Nat) : Nat := (a % {M}) % (b % {M})\n"
+         f"def uxor (a b : Nat) : Nat := (a % {M}) ^^^ (b % {M})\n"
+         f"def uand (a b : Nat) : Nat := (a % {M}) &&& (b % {M})\n"
+         f"def uor (a b : Nat) : Nat := (a % {M}) ||| (b % {M})\n"
+         f"def ushr (a b : Nat) : Nat := (a % {M}) >>> (b % {M})\n"
+         f"def ushl (a b : Nat) : Nat := ((a % {M}) <<< (b % {M})) % {M}\n"
+         f"/-- a `char` (signed: {str(k['char_signed']).lower()}) used as an operand of usize arithmetic -/\n"
+         f"def charToUsize (c : Nat) : Nat := castUsize 8 {'true' if k['char_signed'] else 'false'} c\n\n")
+    for o in k["overloads"]:
+        t += f"/-- `{o['src']}`   ({o['ctype']}: {o['bits']} bit, {'signed' if o['signed'] else 'unsigned'}) -/\n"
+        t += f"def hash_{o['name']} ({o['param']} : Nat) : Nat := {o['lean']}\n\n"
+    t += "/-- every overload: (parameter type, bits, signed, function of the bit pattern) -/\n"
+    t += "def overloads : List (String × Nat × Bool × (Nat → Nat)) :=\n  [" + ",\n   ".join(
+        f'("{o["ctype"]}", {o["bits"]}, {"true" if o["signed"] else "false"}, hash_{o["name"]})' for o in k["overloads"]) + "]\n\n"
+    s = k["string"]
+    t += f"/-- `hash(const String&)`: `{s['src']}`\n    the indices of the `s[..]` expressions, in program order -/\n"
+    t += "def hashStringReads (len : Nat) : List Nat :=\n  [" + ", ".join(s["reads"]) + "]\n\n"
+    t += "/-- the code computed from the length and the characters read (`cs`, in program order) -/\n"
+    t += "def hashStringOf (len : Nat) (cs : List Nat) : Nat :=\n" + "\n".join(s["lines"]) + f"\n  {s['ret']}\n\n"
+    t += "end Nstd.Generated.HashFn\n"
+    GEN_FN.parent.mkdir(parents=True, exist_ok=True)
+    if not GEN_FN.exists() or GEN_FN.read_text() != t:
+        GEN_FN.write_text(t)
+    return True, f"{len(k['overloads'])} hash overloads of Base.hpp + hash(const String&) ({len(s['reads'])} character reads), usize {ub} bit"
+
+
 def gen(ctx):
     ok, msg = translate()
+    ok2, msg2 = translate_fn()
     if ctx is not None:
-        ctx.cov.setdefault("translated", "items per block / default capacity " + msg)
-    return ok, msg
+        ctx.cov.setdefault("translated", "items per block / default capacity " + msg + "; " + msg2)
+    return ok and ok2, msg if not ok else msg2
 
 
 def setup():
-    ok, msg = translate()
-    if not ok:
-        print("hash translate:", msg)
+    for ok, msg in (translate(), translate_fn()):
+        if not ok:
+            print("hash translate:", msg)
 
 
 def ipb_flags():
@@ -126,24 +394,6 @@ NOT_AVAILABLE = {
 
 
 # ---- reference: insertion-ordered association list (independent of the Lean model) -----------------
-def hash_string_ref(bs):
-    """hash(const String&) as documented by the code: usize arithmetic, signed char operands"""
-    m = 1 << 64
-    n = len(bs)
-    s = list(bs) + [0]
-
-    def sx(x):
-        return x if x < 128 else (m - 256 + x)
-    hc = n
-    hc = (hc * 16807) % m
-    hc ^= sx(s[0])
-    hc = (hc * 16807) % m
-    hc ^= sx(s[n // 2])
-    hc = (hc * 16807) % m
-    hc ^= sx(s[n - (1 if n else 0)])
-    return hc
-
-
 class RefState:
     def __init__(self, kind="map", dom=6):
         self.kind, self.dom = kind, dom
@@ -203,13 +453,11 @@ def reference(hist):
         if op == "wb":
             out.append("*")          # white-box line: compared between implementation and model only
             continue
-        if op == "hashnum":
-            w_, sg, x = int(w[1]), int(w[2]), int(w[3])
-            out.append(f"num {(x - (1 << w_)) % (1 << 64) if sg and x >= (1 << (w_ - 1)) else x}")
-            continue
-        if op == "hashstr":
-            bs = [] if w[1] == "-" else [int(w[1][i:i + 2], 16) for i in range(0, len(w[1]), 2)]
-            out.append(f"num {hash_string_ref(bs)}")
+        if op in ("hashnum", "hashptr", "hashstr"):
+            # the VALUE of a hash code is not an observable of C02 (the model's functions are translated from the
+            # current sources; implementation and model are compared).  What the property needs is consistency:
+            # one code per key, whatever form the key comes in (the harness computes it for every form).
+            out.append("#")
             continue
         if op in NOT_AVAILABLE[st.kind]:
             out.append("bad-op")
@@ -283,6 +531,8 @@ def reference(hist):
 
 
 def ref_eq(impl, ref):
+    if ref == "#":
+        return re.fullmatch(r"num \d+", impl) is not None       # no HASH-DEPENDS-ON-ORIGIN / HASH-NOT-A-FUNCTION flag
     return ref == "*" and impl.startswith("wb ") or impl == ref
 
 
@@ -353,6 +603,8 @@ def gen_history(rng, length, kind=None, mode=None, origins=False):
                              "removeSelf" if kind == "set" and rng.random() < 0.5 else "swapSelf"]) + f" {t}"
             if op.startswith("removeSelf"):
                 size[t] = 0
+        elif x < 0.992:
+            op = f"hashptr {rng.choice([0, 8, 4096, (1 << 47) - 8, (1 << 64) - 1, rng.randrange(1 << 64)])}"
         elif x < 0.995:
             w_ = rng.choice([8, 16, 32, 64])
             op = f"hashnum {w_} {rng.randrange(2)} {rng.choice([0, 1, (1 << (w_ - 1)) - 1, 1 << (w_ - 1), (1 << w_) - 1, rng.randrange(1 << w_)])}"
@@ -428,6 +680,14 @@ def hash_histories(rng, n):
     for _ in range(n):
         ln = rng.choice([0, 1, 2, 3, 4, 5, 7, 8, 16])
         h.append("hashstr " + ("".join(f"{rng.choice([0, 1, 0x7f, 0x80, 0xff, rng.randrange(256)]):02x}" for _ in range(ln)) or "-"))
+    hs.append(h)
+    # every integral overload at the boundaries of its type (sign extension), the pointer overload
+    h = []
+    for w_ in (8, 16, 32, 64):
+        for sg in (0, 1):
+            for x in (0, 1, (1 << (w_ - 1)) - 1, 1 << (w_ - 1), (1 << w_) - 1, rng.randrange(1 << w_)):
+                h.append(f"hashnum {w_} {sg} {x}")
+    h += [f"hashptr {x}" for x in (0, 1, 7, 8, 4096, (1 << 47) - 8, (1 << 63), (1 << 64) - 1, rng.randrange(1 << 64))]
     hs.append(h)
     return hs
 
